@@ -46,7 +46,42 @@ class GCtx(SymCtx):
         SymCtx.__init__(self, F, K, env)
         self.mode = mode            # 'kernel' | 'ctor'
         self.maxdefs = {}
+        self.not_understood = False     # some condition on a relevant path could not be expressed: no refutation then
         self.callsite = {}          # callee body id -> (caller body, call terminator, tupled?) : the one calling context being judged
+
+    def _irrelevant_cond(self, b, e):
+        """May a dominating condition that could not be expressed be ignored when searching a witness?  Yes when it cannot
+        constrain a scratch quantity: it mentions no inner scratch requirement, no slice length and no field of self
+        (a direction-equality assert, `gcd(width, height) == 1`, `len.is_power_of_two()`, the exit condition of a
+        twiddle-generation loop over a loop-carried counter)."""
+        def relevant(x, depth=0):
+            if depth > 14 or not isinstance(x, tuple):
+                return False
+            k = x[0]
+            if k == "call":
+                if x[1] in INNER_METHODS and x[1] != "Length::len":
+                    return True
+                if x[1].endswith("<impl [T]>::len") or x[1].endswith("<impl [T]>::is_empty"):
+                    return True
+                return any(relevant(a, depth + 1) for a in x[2])
+            if k == "bin":
+                return relevant(x[2], depth + 1) or relevant(x[3], depth + 1)
+            if k in ("un", "cast"):
+                return relevant(x[-1], depth + 1)
+            if k == "discr":
+                return relevant(x[1], depth + 1)
+            if k == "field":
+                return x[1] == ("param", 1) and self.mode == "kernel"
+            if k == "multi":
+                try:
+                    for (c_, p_) in self.symg(b, x):
+                        if any(a[0] == "inner" and a[2] != "len" or a[0] == "self" for a in p_.atoms()):
+                            return True
+                    return False
+                except (Undecided, RecursionError):
+                    return False        # loop-carried / opaque local: constrains only itself
+            return False
+        return not relevant(e)
 
     def inner_atom(self, key, what):
         a = ("inner", key, what)
@@ -153,6 +188,8 @@ class GCtx(SymCtx):
                 else:
                     raise Undecided("variable %s" % b.var_name(e[1]))
                 conds, _ok = self.conditions(b, bi)
+                if not _ok:
+                    self.not_understood = True
                 out += [(c + conds, p) for (c, p) in sub]
             if len(out) > 24:
                 raise Undecided("too many cases")
@@ -192,6 +229,13 @@ class GCtx(SymCtx):
             return self.symg(b, e[3], depth + 1, seen)
         return [([], self.sym(b, e, depth + 1))]
 
+    def symlen(self, b, e, depth=0):
+        if isinstance(e, tuple) and e[0] == "multi":
+            # an `if`-selected slice reached without its branch conditions (e.g. through a parameter of a helper):
+            # the alternatives are all required for a proof, but a witness could pick an infeasible combination
+            self.not_understood = True
+        return SymCtx.symlen(self, b, e, depth)
+
     def symleng(self, b, operand):
         """Guarded length of a slice operand: [(conds, Poly)] (an `if`-selected slice gives one entry per branch)."""
         r = b.root(operand, through_calls=("rustfft::array_utils::workaround_transmute", "rustfft::array_utils::workaround_transmute_mut"))
@@ -208,6 +252,8 @@ class GCtx(SymCtx):
                 else:
                     raise Undecided("slice selection")
                 conds, _ok = self.conditions(b, bi)
+                if not _ok:
+                    self.not_understood = True
                 for a in alts:
                     out.append((list(conds), a))
             return out
@@ -280,8 +326,11 @@ def _struct_cases(F, K, adt):
         try:
             lbi = next(i for i, bb in enumerate(cb.blocks) if any(x is n for x in bb["s"]))
             lit_conds, _ok = ctx.conditions(cb, lbi)
+            if not _ok:
+                ctx.not_understood = True
         except (StopIteration, Undecided, RecursionError):
             lit_conds = []
+            ctx.not_understood = True
         canon = {}
         for path, gv in list(fields.items()) + [(("len",) + k, v) for k, v in slens.items()]:
             if gv is None:
@@ -289,6 +338,7 @@ def _struct_cases(F, K, adt):
             else:
                 canon[path] = [([(canon_poly(l), op, canon_poly(r)) for (l, op, r) in conds], canon_poly(p)) for (conds, p) in gv]
         canon["__asserts__"] = [(canon_poly(l), op, canon_poly(r)) for (l, op, r) in lit_conds]
+        canon["__not_understood__"] = ctx.not_understood
         canon["__facts__"] = [canon_poly(f) for f in ctx.facts]
         canon["__maxdefs__"] = {a: (canon_poly(pa), canon_poly(pb), mx) for a, (pa, pb, mx) in ctx.maxdefs.items()}
         out.append((canon, cb, n))
@@ -395,6 +445,8 @@ def _judge(F, K, adt, b, t, ro, ik, cases, chain=()):
         alts = ctx.symleng(b, t["args"][scr_i])
         bi = next(i for i, bb in enumerate(b.blocks) if bb["t"] is t)
         site_conds, _ok = ctx.conditions(b, bi)
+        if not _ok:
+            ctx.not_understood = True
     except (Undecided, RecursionError, StopIteration) as u:
         return "undecided", "length of the slice handed over: %s" % u
     need = Poly.atom(ctx.inner_atom(tuple(ro[1]), ik))
@@ -409,7 +461,7 @@ def _judge(F, K, adt, b, t, ro, ik, cases, chain=()):
             polys = [alen] + [x for c in (aconds + site_conds) for x in (c[0], c[2])]
             used = sorted({a for p in polys for a in p.atoms() if a[0] == "self" and a[2] in ("field", "len")}, key=repr)
             choices = []
-            unknown = any(a[0] == "self" and a[2] == "call" for p in polys for a in p.atoms())
+            unknown = ctx.not_understood or fields.get("__not_understood__", False) or any(a[0] == "self" and a[2] == "call" for p in polys for a in p.atoms())
             for a in used:
                 if a[2] == "field":
                     gv = fields.get(tuple(a[1]))
